@@ -49,7 +49,8 @@ class UpTree:
         os.chmod(self.top, 0o755)
         self.reset({"k": "absent", "to": "-"})
 
-    def reset(self, slot):
+    def reset(self, slot, m=None):
+        """slot: the link slot up/L; m: the second slot up/M (None / absent, or a link to itself)."""
         for name in os.listdir(self.top):
             p = os.path.join(self.top, name)
             if os.path.islink(p) or not os.path.isdir(p):
@@ -65,13 +66,15 @@ class UpTree:
             to = slot["to"]
             if to == "dangling":
                 tgt = os.path.join(self.top, "nonexistent")
-            elif to == "L":
-                tgt = os.path.join(self.top, "up", "L")
+            elif to in ("L", "M"):
+                tgt = os.path.join(self.top, "up", to)
             elif to in FILES:
                 tgt = os.path.join(self.top, FILES[to])
             else:
                 tgt = os.path.join(self.top, DIRS[to])
             os.symlink(tgt, os.path.join(self.top, "up", "L"))
+        if m and m.get("k") == "link":
+            os.symlink(os.path.join(self.top, "up", "M"), os.path.join(self.top, "up", "M"))      # a link that points at itself
         for dp, dn, fn in os.walk(self.top):
             os.chmod(dp, 0o755)
 
@@ -193,7 +196,7 @@ def run_protocol(handler, line, content, rnd):
 
 def run_case(tree, case, rnd):
     """-> (status, snapshot before, snapshot after, content)"""
-    tree.reset(case["L"])
+    tree.reset(case["L"], case.get("M"))
     up = os.path.join(tree.top, "up")
     line, content = build_request(case, rnd)
     before = snapshot(tree.top)
@@ -422,6 +425,13 @@ def main(pid="C14"):
         rep.set("deviation_selftests", [{"deviation": d, "caught_by": c} for d, c, _ in dev])
         if dev[0][1] is None:
             raise tlc.TLCError("self-test: DevTruncateInPlace not caught")
+        r2 = tlc.run("Upload", "MC_UploadLoop.cfg", timeout=900)
+        rep.tlc("Upload(design, trees with a looping link, paths of <= 4 segments)", r2)
+        if not r2.ok:
+            raise tlc.TLCError("design variant of Upload (loop instance) violates %s" % r2.violated)
+        dev2 = tlc.expect_caught("Upload", "MC_UploadLoop.cfg", {"DevLoopLexical": ["OnlyInside"]}, timeout=300)
+        if dev2[0][1] is None:
+            raise tlc.TLCError("self-test: DevLoopLexical not caught")
         slots = [{"k": "absent", "to": "-"}] + [{"k": "link", "to": t} for t in TARGETS]
         paths = [[]] + [[a] for a in SEGS] + [[a, b] for a in SEGS for b in SEGS]
         cases = []
@@ -439,6 +449,16 @@ def main(pid="C14"):
             cases.append({"L": rnd.choice(slots), "path": rnd.choice(paths), "size": rnd.choice(["ok", "ok", "zero"]),
                           "token": rnd.choice(["notneeded", "right"]), "mime": rnd.choice(["nolist", "allowed"]),
                           "deleteOn": True, "fault": rnd.choice(["partial", "perm", "dropbox"])})
+        for c in cases:
+            c["M"] = {"k": "absent", "to": "-"}
+        # trees in which a second link (up/M) points at itself: what Path.resolve() returns there is only partly resolved
+        loop_segs = ["..", "M", "L", "n", "d"]
+        lpaths = [[a, b] for a in loop_segs for b in loop_segs] + [[a, b, c_] for a in loop_segs for b in loop_segs for c_ in loop_segs] + \
+            [["M", "..", a, b] for a in loop_segs for b in loop_segs] + [[a, "M", "..", b] for a in loop_segs for b in loop_segs]
+        lslots = slots + [{"k": "link", "to": "M"}]
+        for _ in range(3000 if thorough else 500):
+            cases.append({"L": rnd.choice(lslots), "M": {"k": "link", "to": "M"}, "path": rnd.choice(lpaths), "size": rnd.choice(["ok", "ok", "zero"]),
+                          "token": "notneeded", "mime": "nolist", "deleteOn": True, "fault": "none"})
         out = []
         for c in cases:
             st, before, after, content = run_case(tree, c, rnd)
@@ -472,8 +492,8 @@ def main(pid="C14"):
             if c["kind"] in ("mangled", "other"):
                 bad.add("ExactContent")
             prop = sorted(bad - {"Agrees"})
-            desc = "tree L=%s path=/%s size=%s token=%s mime=%s delete=%s fault=%s: status %s, change %s at %s+%d %s" % (
-                c["L"], "/".join(c["path"]), c["size"], c["token"], c["mime"], c["deleteOn"], c["fault"], c["_st"], c["kind"], c["at"], c["ghost"], c["_extra"])
+            desc = "tree L=%s M=%s path=/%s size=%s token=%s mime=%s delete=%s fault=%s: status %s, change %s at %s+%d %s" % (
+                c["L"], c["M"]["k"], "/".join(c["path"]), c["size"], c["token"], c["mime"], c["deleteOn"], c["fault"], c["_st"], c["kind"], c["at"], c["ghost"], c["_extra"])
             if prop:
                 rep.violation({"formula": prop[0], "fault": c["fault"], "kind": c["kind"]}, "%s falsified: %s" % (prop, desc), c)
             elif "Agrees" in bad:
